@@ -4,6 +4,7 @@
   change of a record kind in t2data.py (a field moved, a type or a count changed) re-opens the theorems.
 -/
 import PyTough.Proofs.T2DataFile
+import PyTough.Proofs.T2DataGener
 namespace Proofs.T2
 open Py Model Model.T2 Proofs Proofs.Incon
 open Gen.Sections (Rec)
@@ -89,6 +90,34 @@ theorem conn_shape (T : Tabs) (hT : T = mainTabs ∨ T = xpTabs) :
   rcases hT with rfl | rfl <;>
   exact ⟨by decide +kernel, ⟨by decide +kernel, ⟨by decide +kernel, by decide +kernel, by decide +kernel⟩,
     ⟨by decide +kernel, by decide +kernel, by decide +kernel⟩, by decide +kernel⟩⟩
+
+theorem chunkRec_of (T : Tabs) (n : Str) (k : Nat) (h : chunkOK T (n, k) = true) :
+    T.get n = .ok (recOf T n) ∧ ChunkRec (recOf T n) k (fieldAt T n 0) := by
+  obtain ⟨r, hr, hc, _⟩ := chunkOK_spec h
+  have : recOf T n = r := by unfold recOf; simp only at hr; rw [hr]
+  rw [this]; exact ⟨hr, hc⟩
+
+theorem gener_shape (T : Tabs) (hT : T = mainTabs ∨ T = xpTabs) :
+    T.get c!"generator" = .ok (recOf T c!"generator") ∧
+    T.get c!"generation_times" = .ok (recOf T c!"generation_times") ∧
+    T.get c!"generation_rates" = .ok (recOf T c!"generation_rates") ∧
+    T.get c!"generation_enthalpy" = .ok (recOf T c!"generation_enthalpy") ∧
+    GenerShape (recOf T c!"generator") (recOf T c!"generation_times") (recOf T c!"generation_rates")
+      (recOf T c!"generation_enthalpy") (fun i => fieldAt T c!"generator" i)
+      (fieldAt T c!"generation_times" 0) (fieldAt T c!"generation_rates" 0) (fieldAt T c!"generation_enthalpy" 0) := by
+  rcases hT with rfl | rfl
+  · have t := chunkRec_of mainTabs c!"generation_times" 4 (main_chunks_ok _ (by decide))
+    have r := chunkRec_of mainTabs c!"generation_rates" 4 (main_chunks_ok _ (by decide))
+    have e := chunkRec_of mainTabs c!"generation_enthalpy" 4 (main_chunks_ok _ (by decide))
+    exact ⟨by decide +kernel, t.1, r.1, e.1, ⟨by decide +kernel, by decide +kernel,
+      ⟨by decide +kernel, by decide +kernel, by decide +kernel⟩, ⟨by decide +kernel, by decide +kernel, by decide +kernel⟩,
+      by decide +kernel, by decide +kernel, by decide +kernel, t.2, r.2, e.2⟩⟩
+  · have t := chunkRec_of xpTabs c!"generation_times" 4 (xp_chunks_ok _ (by decide))
+    have r := chunkRec_of xpTabs c!"generation_rates" 4 (xp_chunks_ok _ (by decide))
+    have e := chunkRec_of xpTabs c!"generation_enthalpy" 4 (xp_chunks_ok _ (by decide))
+    exact ⟨by decide +kernel, t.1, r.1, e.1, ⟨by decide +kernel, by decide +kernel,
+      ⟨by decide +kernel, by decide +kernel, by decide +kernel⟩, ⟨by decide +kernel, by decide +kernel, by decide +kernel⟩,
+      by decide +kernel, by decide +kernel, by decide +kernel, t.2, r.2, e.2⟩⟩
 
 /-! ### keyword → reader / writer dispatch as it is in /repo -/
 
